@@ -8,6 +8,7 @@ virtualised so that the model's timestamps are what the code sees.
 """
 import os
 import shutil
+import zlib
 import sys
 
 from .. import tlc, graph, common, servers
@@ -77,6 +78,7 @@ def run(ctx):
     apps = [("Files", "wsgi", W.Files(base), "/page.html"), ("Files", "asgi", A.Files(base), "/page.html"),
             ("Pages", "wsgi", W.Pages(base), "/page"), ("Pages", "asgi", A.Pages(base), "/page.html")]
     TPS = K["TPS"]
+    thin = ctx.tier == "thorough"
 
     def set_file(fs):
         with open(target, "wb") as f:
@@ -115,6 +117,8 @@ def run(ctx):
                 name, args = graph.parse_action(lab)
                 if name not in ("Plain", "Cond"):
                     return real
+                if thin and s1["steps"] == K["MaxSteps"] and zlib.crc32(("%s>%s" % (src, dst)).encode()) % len(apps) != ai:
+                    return real      # thorough: a request that ends a longest history is replayed on one of the four apps
                 set_file(s0["file"])
                 case = {"app": appname, "iface": iface, "history_len": s0["steps"], "action": lab,
                         "file": dict(s0["file"]), "clock": s0["clock"]}
